@@ -257,6 +257,17 @@ def run_cv_schedule(ctx, rng, nthreads, cycles, exhaustive_choices=None):
                     ctx.violation("`locked` reports %r while mode %r is held" % (view, inside[0][1]), case)
                     ok = False
                     break
+            # no lost wake-up: with the mutex free, nobody sleeps although the condition it waits for holds
+            if lock._lock.owner is None:
+                for x in threads:
+                    if x.state == "parked" and x.pending[0] == "relock" and not x.notified:
+                        pred = (not lock._writer) if x.mode == "r" else (not lock._writer and lock._readers == 0)
+                        if pred:
+                            ctx.violation("lost wake-up: thread %d sleeps waiting for mode %r although the lock admits it "
+                                          "(_readers=%d, _writer=%s)" % (x.idx, x.mode, lock._readers, lock._writer), case)
+                            ok = False
+                if not ok:
+                    break
             if sid is not None:
                 # advance the model thread until it shows the same phase
                 st = None
@@ -272,14 +283,14 @@ def run_cv_schedule(ctx, rng, nthreads, cycles, exhaustive_choices=None):
                 model = {k: ms[k] for k in ("readers", "writer", "mutex", "pcs")}
                 if st.get("blocked") or real != model:
                     ctx.disagree("condition-variable RwLock vs model after a step", dict(case), real, dict(model, blocked=st.get("blocked", False)))
-                    ok = False
-                    break
+                    sid = None          # keep running the schedule so that the oracles can find a failing state
+                    continue
                 en_real = [x.can_run() for x in threads]
                 en_model = [ms["enabled"][x.idx] and x.state != "done" for x in threads]
                 if en_real != en_model:
                     ctx.disagree("enabled threads (real vs model)", dict(case), en_real, en_model)
-                    ok = False
-                    break
+                    sid = None
+                    continue
             if steps > 400:
                 ctx.violation("schedule does not terminate", case)
                 ok = False
